@@ -9,6 +9,7 @@ import (
 	"time"
 
 	res "github.com/jirenius/go-res"
+	"github.com/jirenius/go-res/logger"
 	"github.com/jirenius/go-res/store"
 
 	nats "github.com/nats-io/nats.go"
@@ -799,22 +800,53 @@ func c04Nats(c *core.Ctx, p c04Params) {
 }
 
 // c04NoLogger: the service runs without logger (SetLogger(nil)) but with an OnError
-// callback. Everything that makes the library log an error - panicking handlers,
-// second replies, malformed payloads - still gets exactly one response and leaves the
-// service up.
+// callback, and then with each of the loggers the library ships in each of their
+// configurations (MemLogger and StdLogger with error, trace and info output switched on
+// or off). Everything that makes the library log an error - panicking handlers, second
+// replies, malformed payloads - still gets exactly one response and leaves the service
+// up, whatever the logger does with the entry.
 func c04NoLogger(c *core.Ctx) {
+	type lcfg struct {
+		name string
+		mk   func() logger.Logger
+	}
+	cfgs := []lcfg{
+		{"nil (SetLogger(nil))", func() logger.Logger { return nil }},
+		{"MemLogger.SetErr(false)", func() logger.Logger { return logger.NewMemLogger().SetErr(false) }},
+		{"MemLogger.SetTrace(false).SetInfo(false)", func() logger.Logger { return logger.NewMemLogger().SetTrace(false).SetInfo(false) }},
+		{"MemLogger all off", func() logger.Logger { return logger.NewMemLogger().SetErr(false).SetTrace(false).SetInfo(false) }},
+		{"MemLogger all on", func() logger.Logger { return logger.NewMemLogger().SetErr(true).SetTrace(true).SetInfo(true) }},
+		{"StdLogger all off", func() logger.Logger { return logger.NewStdLogger().SetErr(false).SetTrace(false).SetInfo(false) }},
+	}
+	for ci, lc := range cfgs {
+		if !c04LoggerCfg(c, ci, lc.name, lc.mk()) {
+			return
+		}
+	}
+}
+
+func c04LoggerCfg(c *core.Ctx, ci int, name string, l logger.Logger) bool {
 	tbl := &scriptTable{}
 	var onErr int64
 	rg := newRig("svc", func(s *res.Service) {
 		scriptedService(s, tbl, nil)
 	})
-	rg.S.SetLogger(nil)
+	rg.S.SetLogger(l)
 	rg.S.SetOnError(func(_ *res.Service, msg string) { atomic.AddInt64(&onErr, 1) })
 	if err := rg.start(); err != nil {
 		c.Inconclusive("service failed to start: " + err.Error())
-		return
+		return false
 	}
-	defer rg.stop()
+	stopped := false
+	defer func() {
+		if !stopped {
+			rg.stop()
+		}
+	}()
+	sig := "C04/no-response:no-logger"
+	if ci > 0 {
+		sig = "C04/no-response:logger:" + name
+	}
 	scripts := []script{
 		{{Op: "panic", K: "str"}}, {{Op: "panic", K: "err"}}, {{Op: "panic", K: "int"}}, {{Op: "panic", K: "runtime"}}, {{Op: "panic", K: "reserr"}},
 		{{Op: "reply", K: "ok", V: "nil"}, {Op: "panic", K: "str"}}, {{Op: "reply", K: "ok", V: "nil"}, {Op: "reply", K: "ok", V: "nil"}},
@@ -823,25 +855,42 @@ func c04NoLogger(c *core.Ctx) {
 	for _, sc := range scripts {
 		for _, payload := range []string{`{"cid":"abc","params":{"a":1}}`, `{"cid":`, ``} {
 			id := tbl.add(scriptEntry{sc: sc, getSc: script{{Op: "reply", K: "model"}}})
-			subj := "call.svc.u." + id + ".do"
-			start := rg.C.Len()
-			inbox, done, delivered := rg.send(subj, []byte(payload))
-			c.Eval(1)
-			c.Obs("nologger_requests", 1)
-			w := map[string]interface{}{"logger": "nil (SetLogger(nil))", "on_error_callback": true, "subject": subj, "script": sc.String(), "payload": payload}
-			if delivered != 1 || !waitCh(done, 10*time.Second) {
-				c.Inconclusive("no-logger scenario: request not processed: " + subj)
-				return
-			}
-			if resp, _ := replies(rg.C.Since(start), inbox); len(resp) != 1 {
-				w["responses"] = payloadStrs(resp)
-				c.Violation("C04/no-response:no-logger", fmt.Sprintf("service without logger: %s (script [%s]) got %d responses", subj, sc.String(), len(resp)), w)
+			// the panics and malformed payloads are followed by a plain request on the same resource
+			for _, subj := range []string{"call.svc.u." + id + ".do", "get.svc.u." + id} {
+				start := rg.C.Len()
+				inbox, done, delivered := rg.send(subj, []byte(payload))
+				c.Eval(1)
+				c.Obs("nologger_requests", 1)
+				w := map[string]interface{}{"logger": name, "on_error_callback": true, "subject": subj, "script": sc.String(), "payload": payload}
+				if delivered != 1 {
+					c.Inconclusive("logger scenario: request not delivered: " + subj)
+					return false
+				}
+				if !waitCh(done, 10*time.Second) {
+					// The scripted handlers never block and this service gets one request at a
+					// time: half a minute without the request being finished is the service not
+					// serving, not load.
+					if !waitCh(done, 20*time.Second) {
+						resp, _ := replies(rg.C.Since(start), inbox)
+						w["responses"] = payloadStrs(resp)
+						c.Violation(sig+":stuck", fmt.Sprintf("service with logger %s: %s (script [%s]) was not finished within 30 s (%d responses): the service stopped serving", name, subj, sc.String(), len(resp)), w)
+						// the service cannot be expected to shut down
+						stopped = true
+						go rg.stop()
+						return true
+					}
+				}
+				if resp, _ := replies(rg.C.Since(start), inbox); len(resp) != 1 {
+					w["responses"] = payloadStrs(resp)
+					c.Violation(sig, fmt.Sprintf("service with logger %s: %s (script [%s]) got %d responses", name, subj, sc.String(), len(resp)), w)
+				}
 			}
 			tbl.del(id)
-			c.Distinct("nologger/" + sc.String() + "/" + payload)
+			c.Distinct("nologger/" + name + "/" + sc.String() + "/" + payload)
 		}
 	}
 	c.Obs("on_error_callbacks", atomic.LoadInt64(&onErr))
+	return true
 }
 
 // c04Restart: requests to resources whose work was still queued when the
